@@ -249,7 +249,7 @@ def check_main(pid, args):
     corpus_dir = os.path.join(VERIF_DIR, "corpus", pid)
     corpus_n = corpus_nt = 0
     kf_repros = {os.path.normpath(f["repro"]): f for f in opens if f.get("repro")}
-    if os.path.isdir(corpus_dir):
+    if os.path.isdir(corpus_dir) and not os.environ.get("VERIF_NO_CORPUS"):
         for fn in sorted(os.listdir(corpus_dir)):
             if not fn.endswith(".json"):
                 continue
